@@ -187,6 +187,9 @@ pub struct ConcOut {
     pub switches: u64,
     pub nested: u64,
     pub final_snap: Option<rivia::verif::VerifSnapshot>,
+    pub queued: u64,
+    pub multi_guard: u64,
+    pub preempted_between: u64,
 }
 
 enum Chooser<'a> {
@@ -428,6 +431,43 @@ fn execute(case: &ConcCase, chooser: &mut Chooser) -> ConcOut {
     }
     let events = st.log.len() as u64;
     let nested = st.nested_seen;
+    // reach probes from the event log: acquisitions that had to queue, operations that took more
+    // than one guard, and those among them that another thread ran in between
+    let mut queued = 0u64;
+    let mut multi_guard = 0u64;
+    let mut preempted_between = 0u64;
+    {
+        let mut open: Vec<Option<(u32, bool)>> = vec![None; n];
+        let mut last_tid: Option<usize> = None;
+        for (_, t, w) in &st.log {
+            match *w {
+                "queue-w" | "queue-r" => queued += 1,
+                "invoke" => open[*t] = Some((0, false)),
+                "acquire-w" | "acquire-r" => {
+                    if let Some((cnt, foreign)) = open[*t].as_mut() {
+                        *cnt += 1;
+                        if *cnt >= 2 && last_tid.is_some() && last_tid != Some(*t) {
+                            *foreign = true;
+                        }
+                    }
+                },
+                "return" => {
+                    if let Some((cnt, foreign)) = open[*t].take() {
+                        if cnt >= 2 {
+                            multi_guard += 1;
+                            if foreign {
+                                preempted_between += 1;
+                            }
+                        }
+                    }
+                },
+                _ => {},
+            }
+            if matches!(*w, "acquire-w" | "acquire-r" | "release-w" | "release-r" | "invoke" | "return") {
+                last_tid = Some(*t);
+            }
+        }
+    }
     drop(st);
     let mut recs = records.lock().unwrap().clone();
     recs.sort_by_key(|r| r.inv);
@@ -438,7 +478,7 @@ fn execute(case: &ConcCase, chooser: &mut Chooser) -> ConcOut {
     if let Some(s) = &final_snap {
         log = hash_bytes(log, &tree::tree_of(s).full_hash().to_le_bytes());
     }
-    ConcOut { schedule, records: recs, violations, log_hash: log, events, switches, nested, final_snap }
+    ConcOut { schedule, records: recs, violations, log_hash: log, events, switches, nested, final_snap, queued, multi_guard, preempted_between }
 }
 
 fn outcomes_agree(conc: &Outcome, seqo: &Outcome) -> bool {
@@ -901,13 +941,15 @@ pub fn run_index(id: &str, tier: &str, seed: u64, idx: u64, stats: &mut Stats, k
     if out.nested > 0 {
         stats.bump("probe.nested_acquisition_seen");
     }
+    stats.add("probe.acquisition_found_the_lock_held__only_possible_with_nested_acquisition", out.queued);
+    stats.add("probe.operation_took_two_or_more_guards", out.multi_guard);
+    stats.add("probe.other_thread_ran_between_two_guards_of_one_operation", out.preempted_between);
     stats.add("fault.F5_preemptions_at_guard_or_op_boundary", out.switches);
     if out.records.iter().any(|r| matches!(r.out, Outcome::Panic(_))) {
         stats.bump("fault.F6_client_thread_panicked");
     }
     let prog_hash = hash_str(&format!("{:?}{:?}", case.setup, case.threads));
     let sched_hash = hash_str(&format!("{:?}", case.schedule));
-    stats.distinct_cases.insert(mix(&[prog_hash, sched_hash]));
     stats.distinct_cases.insert(out.log_hash);
     let pair = format!("{:016x}|{:016x}", prog_hash, sched_hash);
     if out.switches > 0 {
